@@ -42,16 +42,18 @@ def run_xh(ob, known, do_twin):
     from vf import xh
     res = {'name': ob.name, 'kind': 'xh', 'family': ob.family, 'bounds': ob.bounds, 'stubs': ob.stubs,
            'timeout': ob.timeout}
+    from vf.ob import TOTAL
+    if any(r is TOTAL and k in known for k, r in ob.known.items()):
+        res.update(status='CARVED', detail='whole obligation carved out by a listed known finding', carved=[k for k in ob.known if k in known],
+                   paths=0, solver_queries=0, solver_time_s=0.0)
+        return res
     pre, carved = carved_pre(ob, known)
     res['carved'] = carved
     # native witnesses (vacuity guard i + baseline)
     wit_ok = 0
     for w in ob.witness:
         if pre is not None and not pre(*w):
-            if ob.pre is None or ob.pre(*w):
-                continue  # falls into a carved region
-            res.update(status='HARNESS_ERROR', detail=f'witness {w!r} does not satisfy pre')
-            return res
+            continue  # outside this tier's bounds or inside a carved region
         ok, detail = xh.native(ob.fn, w)
         if not ok and not ob.expect_refuted:
             res.update(status='VIOLATED', detail=f'native witness fails: {detail}', cex=repr(tuple(w)),
